@@ -150,9 +150,20 @@ def run(ctx: Ctx) -> None:
         ctx.sample({k: e[k] for k in ("case", "pos", "ak", "src", "nctx", "oc", "exc", "code")})
     ctx.sample(traces[0]["ev"][0])
     ctx.notes["export_preamble_plain"] = ad.export_namespace(ctx.work, "plain", "float", ctx.seed)["__export_src__"][-400:]
+    # histories: the value asserted after statement p must be the value observed after statement p, also
+    # when a later statement changes a nested container of the same object in place.  TLC-enumerated test
+    # cases over harness/sut/pp_sut.py containing note() (self.log[0].append(...)) run through the real
+    # assertion generation and export; the exported functions are executed (PipelineTrace.tla TestVerdicts).
+    from harness.props import _pipeline as P  # noqa: PLC0415
+
+    ctx.evaluations = n_events + P.replay_progs(ctx, "C20", {"TestVerdicts"}, only_kinds={"note"})
 
 
 def replay(ctx: Ctx, rec: dict) -> int:
+    if "replay" in rec["behaviour"]:
+        from harness.props import _pipeline as P  # noqa: PLC0415
+
+        return P.replay_one(ctx, rec, "C20", {"TestVerdicts"})
     c = rec["behaviour"]
     tr = {"ev": ad.check_value(c["v"], c["pos"], c["m"], rec.get("seed", ctx.seed), ctx.work)}
     for e in tr["ev"]:
